@@ -96,7 +96,7 @@ Definition w_good : eprog :=
   w_elab [TGdef [IGlyph 0; IGlyph 1; IGlyph 2] [] [IGlyph 4] [];
           TFeature 1 [FS (LRule (RSingle (OGlyph 0) (OGlyph 1)));
                       FS (LRule (RLiga [OGlyph 1; OGlyph 2] 3));
-                      FS (LFlag (mkSF false false false true None));
+                      FS (LFlag (mkSF false false false true None None));
                       FS (LRule (RLiga [OGlyph 1; OGlyph 1] 0));
                       FS (LRule (RPosPair false (OGlyph 0) (OGlyph 3) (mkV 0 0 (-30) 0)));
                       FS (LRule (RPosPair false (OClass [IGlyph 0; IGlyph 1]) (OClass [IGlyph 2; IGlyph 3]) (mkV 0 0 5 0)))]].
